@@ -303,7 +303,7 @@ func c17Floors(ctx *core.Ctx) {
 // c17Work: part = "sequential" (independence stream only, one goroutine), "parallel"
 // (histories + independence on all cores) or "all" (replay).
 func c17Work(ctx *core.Ctx, part string) {
-	nSpec := ctx.N(1800, 16000)
+	nSpec := ctx.N(1800, 30000)
 	if part == "sequential" {
 		nSpec = 0
 	}
